@@ -272,7 +272,7 @@ pub fn program(s: &Site, src: &str) -> String {
     format!("{}{}", PRELUDE, s.tmpl.replace('@', src))
 }
 
-fn array_dims(m: &ir::Module, ty: ir::TypeId) -> Option<String> {
+pub fn array_dims(m: &ir::Module, ty: ir::TypeId) -> Option<String> {
     let mut dims = Vec::new();
     let mut cur = m.type_registry.remove_modifier(ty);
     loop {
@@ -288,7 +288,7 @@ fn array_dims(m: &ir::Module, ty: ir::TypeId) -> Option<String> {
     if dims.is_empty() { None } else { Some(format!("len:{}", dims.join(","))) }
 }
 
-fn walk_statements<'a>(block: &'a [ir::Statement], f: &mut dyn FnMut(&'a ir::Statement)) {
+pub fn walk_statements<'a>(block: &'a [ir::Statement], f: &mut dyn FnMut(&'a ir::Statement)) {
     for st in block {
         f(st);
         match &st.kind {
@@ -319,7 +319,7 @@ fn functions_named<'a>(m: &'a ir::Module, name: &str) -> Vec<&'a ir::FunctionImp
     v
 }
 
-fn innermost_literal(e: &ir::Expression) -> Option<&ir::Constant> {
+pub fn innermost_literal(e: &ir::Expression) -> Option<&ir::Constant> {
     match e {
         ir::Expression::Literal(c) => Some(c),
         ir::Expression::Cast(_, inner) => innermost_literal(inner),
